@@ -330,3 +330,78 @@ def lazyfill(run, fx, rule):
                 else:
                     run.violated(rule, inst, fn.loc(e), 'the filling call returns `%s` instead of re-reading the cell: the first caller can see a value that differs from '
                                  'what every later caller reads from the cache (a different conversion, or a substitute), so results depend on call history' % txt[:100])
+
+
+def advinit(run, fx, rule='LAZYFILL'):
+    """the hinted-advance cache is lazily filled under the test `cell == INVALID_ADVANCE`: that is only history-independent if EVERY cell
+    starts as the sentinel.  Font::Font is interpreted (rules/ordint.py; memset/memcpy are no-ops for this question, gralloc hands out
+    n cells marked uninitialised) for faces of 0..5 glyphs: afterwards no cell is left as malloc returned it, and all hold the value
+    Font::advance compares with."""
+    from . import ordint as O
+    from .facts import AnalysisBroken
+    ctors = [f for f in fx.fns_named('graphite2::Font::Font') if not f.f.get('implicit') and len(f.f.get('params') or []) == 4]
+    inst = 'every cell of the hinted-advance cache starts as the sentinel'
+    if len(ctors) != 1:
+        run.broken(rule, inst, 'Font::Font(ppm, face, handle, ops) not found')
+        return
+    fn = ctors[0]
+    adv = fx.one('graphite2::Font::advance')
+    def fval(x):
+        x = adv.strip_all_casts(x)
+        if x.get('fv') is not None:
+            return x['fv']
+        if x.get('v') is not None:
+            return x['v']
+        if x['k'] == 'UnaryOperator' and x['op'] == '-':
+            v_ = fval(x['c'][0])
+            return None if v_ is None else -v_
+        return None
+    sent = [fval(e['c'][1]) for _, e in adv.elements() if e['k'] == 'BinaryOperator' and e['op'] == '==']
+    if len(sent) != 1 or sent[0] is None:
+        run.broken(rule, inst, 'the sentinel comparison in Font::advance was not found', adv.where())
+        return
+
+    def mkobj(q):
+        r = O.Rec()
+        for f in fx.record(q)['fields']:
+            r[q + '::' + f['n']] = O.Ptr(None) if '*' in (f.get('t') or '') else None
+        return r
+
+    class Uninit:
+        pass
+
+    def gralloc(it, f, e, obj, args):
+        n = it.rv(args[0])
+        if not isinstance(n, int):
+            raise AnalysisBroken('gralloc of a non-constant count in Font::Font')
+        return O.It(O.Vec([Uninit() for _ in range(n)]), 0)
+    noop = lambda it, f, e, obj, args: None
+    try:
+        for n in range(0, 6):
+            font = mkobj('graphite2::Font')
+            font['graphite2::Font::m_ops'] = mkobj('gr_font_ops')
+            face = mkobj('graphite2::Face')
+            gc = mkobj('graphite2::GlyphCache')
+            gc['graphite2::GlyphCache::_num_glyphs'] = n
+            gc['graphite2::GlyphCache::_upem'] = 2048
+            face['graphite2::Face::m_pGlyphFaceCache'] = O.Ptr(gc)
+            it = O.Interp(fx, natives={'memset': noop, 'memcpy': noop, 'graphite2::gralloc': gralloc})
+            it.coords_may_feed_costs = True
+            it.MAX_STEPS = 3000
+            it.call(fn, font, [O.Op(), O.LV([face], 0), O.Ptr(None), O.Ptr(None)])
+            cells = font['graphite2::Font::m_advances']
+            if not isinstance(cells, O.It) or len(cells.vec.items) != n:
+                run.violated(rule, inst, fn.where(), 'a face of %d glyphs gets a cache of %s cells' % (n, len(cells.vec.items) if isinstance(cells, O.It) else cells))
+                return
+            badc = [k for k, c in enumerate(cells.vec.items) if c != sent[0]]
+            if badc:
+                run.violated(rule, inst, fn.where(), 'face of %d glyphs: cache cell(s) %s are left as the allocator returned them (not %r): Font::advance then returns whatever the heap '
+                             'held instead of asking the application -- the advance of that glyph depends on earlier allocations' % (n, badc, sent[0]))
+                return
+    except O.Violation as v:
+        run.violated(rule, inst, fn.where(), '%s (%s)' % (v.what, v.loc))
+        return
+    except AnalysisBroken as ex:
+        run.broken(rule, inst, str(ex), fn.where())
+        return
+    run.held(rule, inst, fn.where(), 'faces of 0..5 glyphs: all cells == %r after the constructor' % sent[0])
